@@ -45,8 +45,13 @@ def selection_rules(C, fs, vs, pen, tol, r, S, tag="", margin=0.0):
     if D:
         merit = {i: fs[i] + pen * vs[i] for i in D}
         rin = r in D
+        def slack(m):
+            # rounding margin of the end-to-end check (finite merit values only; 0 * inf would be NaN)
+            if margin == 0.0 or not isfin(m):
+                return m
+            return m + margin * (1.0 + abs(m))
         C(f"{tag}least_merit",
-          b_implies(nofeas, b_and(rin, all_of(merit[r] <= merit[i] + margin * (1.0 + abs(merit[i])) for i in D) if rin else False)))
+          b_implies(nofeas, b_and(rin, all_of(merit[r] <= slack(merit[i]) for i in D) if rin else False)))
         if rin and margin == 0.0:
             # (exact merit ties are only meaningful where the code's arithmetic is exact too: H-FILT)
             C(f"{tag}merit_tie_least_violation_then_objective",
